@@ -590,6 +590,7 @@ class loader( reader ):
         self._n			= 0			#   and line we're currently parsing
         self._ts		= None			# Last received timestamp; if None, open will use advancing historical time
         self._strict		= False			#   True after opening a new file, goes False when _ts increases
+        self._seen		= False			#   True once a record from the currently open file has been processed
         self.values		= {}			# Historical values at historical timestamp
         if values:
             # Some default values are provided; initialize our values to them, with a 0.0 timestamp
@@ -713,6 +714,7 @@ class loader( reader ):
                     self._i	= self.open( target=self._ts, after=after, lookahead=self.lookahead,
                                              strict=self._strict, encoding=encoding )
                     self._strict= True # remains until we see increasing timestamps
+                    self._seen	= False
 
                 assert self.state in (self.INITIAL, self.SWITCHING, self.STREAMING, self.EXHAUSTED, self.AWAITING)
                 # We have an open generator; process records.  We also still know if it was our
@@ -774,11 +776,12 @@ class loader( reader ):
                         # So, do we want to release self._strict here?  No, because we'd re-open the
                         # same file next time!  Therefore, we have to see ts > self._ts and
                         # self.state isn't INITIAL/SWITCHING (eg. we've already seen records from
-                        # the file )
-                        if self.state not in (self.INITIAL, self.SWITCHING) and (
-                                self._ts is None or ts > self._ts ):
+                        # the file ).  The state cannot tell us that: if the file's first record was still
+                        # in the future when the file was opened, we are AWAITING by the time we see it.
+                        if self._seen and ( self._ts is None or ts > self._ts ):
                             log.debug( "%s Playback releasing strict for next open: %s > %s", self, ts, self._ts )
                             self._strict	= False
+                    self._seen		= True
 
                     if self.state in (self.INITIAL, self.SWITCHING, self.AWAITING):
                         self.state	= self.STREAMING
